@@ -15,7 +15,7 @@ use refimpl::server::{apply_fault, FaultKind};
 use serde::{Deserialize, Serialize};
 
 pub const LEVEL: &str = "fault_enumeration";
-pub const RULE: &str = "faults injected into valid CredSSP / NTLM server messages; cssp-stream: cssp_connect over a scripted raw stream whose first TSRequest has a size on and around the client's 1500-byte read size and its multiples with DER headers announcing less / exactly / more, served whole, in pieces or byte by byte, then end of stream (spin = more than 64 reads at end of stream); sealed-sequences: several correctly sealed tokens with increasing / repeated / decreasing / wrapping sequence numbers on one context; accepted CHALLENGEs are followed by what cssp_connect does next (credential getters, build_security_interface, one wrap) under ASCII, Latin-1, CJK, supplementary-plane and empty identities; big-target-info: well-formed CHALLENGEs whose target information has every total length in 64936..=65535 (and a coarse sweep below) read with identities of four sizes. direct entries Ntlm::read_challenge_message, cssp::read_ts_server_challenge, cssp::read_ts_validate, gss_unwrapex: every scalar field of a CHALLENGE (all 16-bit lengths and 32-bit offsets at their boundaries, flags, every AvId 0..0x20 and 0xffff, AV lengths) swept over boundary values (field-sweep, enumerated over several challenge layouts incl. missing timestamp, missing EOL, zero-length target info), truncation at every byte, extensions, xor corruption and double faults (generated); TSRequest trees with empty / multiple / missing negoTokens, wrong tags, BER forms; all byte strings of length <= 2 (3 thorough) at each entry. tls section: whole NLA handshakes through Connector::connect where the server's CHALLENGE TSRequest or final reply is replaced by a faulty one. Oracle: Ok or Err, never a panic / spin / disproportionate allocation. Non-trivial = the message differs from a conforming one; distinct by hash of the case.";
+pub const RULE: &str = "faults injected into valid CredSSP / NTLM server messages; cssp-stream: cssp_connect over a scripted raw stream whose first TSRequest has a size on and around the client's 1500-byte read size and its multiples with DER headers announcing less / exactly / more, served whole, in pieces or byte by byte, then end of stream (spin = more than 64 reads at end of stream); tsrequest-fields: TSRequests of versions 1..7 whose optional fields [1]..[6] hold INTEGERs (small values, boundaries, the NTSTATUS and SEC_E ranges for the errorCode field), OCTET STRINGs and nested sequences, at read_ts_server_challenge and read_ts_validate; sealed-sequences: several correctly sealed tokens with increasing / repeated / decreasing / wrapping sequence numbers on one context; accepted CHALLENGEs are followed by what cssp_connect does next (credential getters, build_security_interface, one wrap) under ASCII, Latin-1, CJK, supplementary-plane and empty identities; big-target-info: well-formed CHALLENGEs whose target information has every total length in 64936..=65535 (and a coarse sweep below) read with identities of four sizes. direct entries Ntlm::read_challenge_message, cssp::read_ts_server_challenge, cssp::read_ts_validate, gss_unwrapex: every scalar field of a CHALLENGE (all 16-bit lengths and 32-bit offsets at their boundaries, flags, every AvId 0..0x20 and 0xffff, AV lengths) swept over boundary values (field-sweep, enumerated over several challenge layouts incl. missing timestamp, missing EOL, zero-length target info), truncation at every byte, extensions, xor corruption and double faults (generated); TSRequest trees with empty / multiple / missing negoTokens, wrong tags, BER forms; all byte strings of length <= 2 (3 thorough) at each entry. tls section: whole NLA handshakes through Connector::connect where the server's CHALLENGE TSRequest or final reply is replaced by a faulty one. Oracle: Ok or Err, never a panic / spin / disproportionate allocation. Non-trivial = the message differs from a conforming one; distinct by hash of the case.";
 
 #[derive(Serialize, Deserialize, Hash, Clone, Debug)]
 pub enum Case {
@@ -480,12 +480,25 @@ pub fn decode_tls(s: &mut Src) -> Case {
         None
     };
     let final_reply = if which == 0 {
-        Some(match s.below(3) {
+        Some(match s.below(8) {
             0 => {
                 let n = s.below(200);
                 FinalReply::Garbage(s.fill(n))
             }
             1 => FinalReply::Truncate(s.u16()),
+            // correctly sealed replies whose plaintext has an unexpected length or content: they pass the signature check and
+            // reach the code that compares public keys
+            3 => FinalReply::PlainTruncated(s.pick(&[0u16, 1, 2, 100, 0xFFFF, 0xFFFE, 7])),
+            4 => {
+                let n = 1 + s.below(300);
+                FinalReply::PlainSuffix(s.fill(n))
+            }
+            5 => {
+                let n = 1 + s.below(300);
+                FinalReply::PlainPrefix(s.fill(n))
+            }
+            6 => FinalReply::PlainXor(vec![(s.u16(), s.u8() | 1)]),
+            7 => s.pick(&[FinalReply::Offset(0), FinalReply::OtherCert, FinalReply::NoCarryPlusOne, FinalReply::MinusOne, FinalReply::WrongSeq(7)]),
             _ => {
                 let n = s.below(64);
                 FinalReply::RandomToken(s.fill(n))
@@ -587,6 +600,34 @@ pub fn check(rep: &Report) {
     let tier = rep.tier;
     rep.enumerate("field-sweep", true, move |p, n| sweep(tier, p, n), run);
     rep.list("cssp-stream", stream_cases(), run);
+    // TSRequests of every protocol version with each optional field [1]..[6] present as INTEGER, OCTET STRING or nested
+    // SEQUENCE, the integers swept over small values, boundaries and the NTSTATUS range (the errorCode of CredSSP v3+)
+    let mut tsr = Vec::new();
+    let ints: Vec<u32> = (0..40u32).chain(0xC000_0000..0xC000_0200).chain(0x8009_0300..0x8009_0330).chain([0x7F, 0x80, 0xFF, 0x100, 0x7FFF, 0x8000, 0xFFFF, 0x10000, 0x7FFF_FFFF, 0x8000_0000, 0xFFFF_FFFF]).collect();
+    for version in [1u32, 2, 3, 4, 5, 6, 7, 0xFFFF] {
+        for tag in 1..=6u8 {
+            for (k, v) in ints.iter().enumerate() {
+                // the full cross product is large: every value for the errorCode tag, a stride elsewhere
+                if tag != 4 && k % 16 != 0 {
+                    continue;
+                }
+                let node = Node::Seq(vec![Node::Explicit(0, Box::new(Node::Int(version))), Node::Explicit(tag, Box::new(Node::Int(*v)))]);
+                for entry in [1u8, 2] {
+                    tsr.push(Case::Tree { entry, node: node.clone(), long: 0 });
+                }
+            }
+            for body in [Node::Octets(vec![]), Node::Octets(vec![1, 0, 0, 0, 0, 0, 0, 0, 0, 0, 0, 0, 0, 0, 0, 0]), Node::Seq(vec![]), Node::SeqOf(vec![Node::Seq(vec![Node::Explicit(0, Box::new(Node::Octets(vec![0x4E, 0x54])))])])] {
+                let node = Node::Seq(vec![Node::Explicit(0, Box::new(Node::Int(version))), Node::Explicit(tag, Box::new(body.clone()))]);
+                for entry in [1u8, 2] {
+                    tsr.push(Case::Tree { entry, node: node.clone(), long: 0 });
+                }
+                // the same field behind a conforming pubKeyAuth / negoTokens field
+                let node = Node::Seq(vec![Node::Explicit(0, Box::new(Node::Int(version))), Node::Explicit(3, Box::new(Node::Octets(vec![1, 0, 0, 0, 9, 9, 9, 9, 9, 9, 9, 9, 0, 0, 0, 0, 7]))), Node::Explicit(tag, Box::new(body))]);
+                tsr.push(Case::Tree { entry: 2, node, long: 0 });
+            }
+        }
+    }
+    rep.list("tsrequest-fields", tsr, run);
     // every ordered pair and some triples of sequence numbers around 0, 1, 2^31, 2^32-1 on one context
     let mut sq = Vec::new();
     let vals = [0u32, 1, 2, 3, 7, 0x7FFF_FFFF, 0x8000_0000, 0xFFFF_FFFE, 0xFFFF_FFFF];
@@ -610,6 +651,18 @@ pub fn check(rep: &Report) {
         certs.push(Case::Tls { base, challenge_ts: None, final_reply: None });
     }
     rep.list("tls-certificates", certs, run_cert);
+    // correctly sealed final replies with plaintexts of every awkward length, for each key type
+    let mut sealed_final = Vec::new();
+    for identity in 0..4u8 {
+        let mut base = crate::props::c17::gen_case(&mut Src::new(&[identity, 9, 9, 1, 2, 3, 4, 5, 6, 7, 8, 9, 10, 11, 12, 13, 14, 15, 16, 17, 18]), Some(1));
+        base.cfg.nla = true;
+        base.identity = identity;
+        base.challenge.flags |= ntlm::NEG_UNICODE;
+        for r in [FinalReply::PlainTruncated(0), FinalReply::PlainTruncated(1), FinalReply::PlainTruncated(100), FinalReply::PlainTruncated(0xFFFF), FinalReply::PlainSuffix(vec![0; 1]), FinalReply::PlainSuffix(vec![0xFF; 300]), FinalReply::PlainSuffix(vec![1; 70000]), FinalReply::PlainPrefix(vec![0xFF; 5]), FinalReply::NoCarryPlusOne, FinalReply::Offset(0)] {
+            sealed_final.push(Case::Tls { base: base.clone(), challenge_ts: None, final_reply: Some(r) });
+        }
+    }
+    rep.list("tls-sealed-final-replies", sealed_final, run);
     rep.require("faults", "challenge", 50_000);
     rep.require("faults", "tree", 5_000);
     rep.require("faults", "no-timestamp", 1_000);
